@@ -170,6 +170,7 @@ class Unit:
         self._impl_depth_trait = 0
         self.labels = {}
         self.notes = []
+        self.auto_props = {}   # fn name (as fn_at reports it) or substring -> 'C13': property that unlabelled (auto) obligations of that function belong to
         self.externs = ["http", "hyper", "bytes", "tokio", "serde_json", "itertools", "hex", "hmac_sha256",
                         "http_body_util", "hyper_util", "tower", "tower_http", "bitflags", "log", "serde",
                         "thiserror", "once_cell", "regex", "time", "uuid", "tokio_util", "serde_derive"]
